@@ -35,6 +35,9 @@ func runC11(c *an.Ctx) {
 	r11i(c)
 	c.As(map[string]string{"R15i": "R11g"}, func() { r15i(c) })
 	c.As(map[string]string{"R15e": "R11j"}, func() { r15e(c) })
+	// round 8
+	r11k(c)
+	c.As(map[string]string{"R03h": "R11l"}, func() { r03h(c) })
 }
 
 // enumConsts returns name->value for the constants of the named type in package rel.
@@ -412,9 +415,8 @@ func r11d(c *an.Ctx, stateTab map[[2]int64]int64) {
 					}
 					return
 				}
-				switch v := val.(type) {
-				case *ssa.Const:
-					k, _ := an.Int64Of(v.Value)
+				// checkShortcut: the constant k is stored on a path whose guards are atoms
+				checkShortcut := func(k int64, atoms []an.Atom) {
 					nShort++
 					// guards: s == K, optionally field != E
 					sEq := false
@@ -459,6 +461,38 @@ func r11d(c *an.Ctx, stateTab map[[2]int64]int64) {
 							bad = append(bad, fmt.Sprintf("status shortcut to %d: only UNDEFINED absorbs everything", k))
 						}
 					}
+				}
+				// the incoming value itself stored where every way of getting there has established which constant it is
+				// (`if s == ERROR || (s == MIXED && t.state != ERROR) { t.state = s }`): one shortcut per alternative
+				if p, isP := val.(*ssa.Parameter); isP {
+					alts := an.AtomAlts(blk)
+					all := len(alts) > 0
+					var ks []int64
+					for _, alt := range alts {
+						found := false
+						for _, a := range alt {
+							if a.Y == nil || a.Op != token.EQL || a.X != ssa.Value(p) {
+								continue
+							}
+							if kk, isK := an.ConstInt(a.Y); isK {
+								ks = append(ks, kk)
+								found = true
+								break
+							}
+						}
+						all = all && found
+					}
+					if all {
+						for i, alt := range alts {
+							checkShortcut(ks[i], alt)
+						}
+						return
+					}
+				}
+				switch v := val.(type) {
+				case *ssa.Const:
+					k, _ := an.Int64Of(v.Value)
+					checkShortcut(k, atoms)
 				case *ssa.Parameter:
 					nLeaf++
 					// direct assignment only for leaf roles: guarded by a successful type assertion to taskRole/callRole
